@@ -348,8 +348,10 @@ def targets_assign():
 
 
 def targets_c06():
-    return targets_c13() + targets_assign() + [Target('__init__', 'cdiv', [cdiv_config()])]
+    from . import launcher_c
+    return targets_c13() + targets_assign() + [Target('__init__', 'cdiv', [cdiv_config()])] + launcher_c.targets()
 
 
 def targets_c07():
-    return [Target('__init__', 'cdiv', [cdiv_config()])]
+    from . import launcher_c
+    return [Target('__init__', 'cdiv', [cdiv_config()])] + launcher_c.targets()
